@@ -1037,7 +1037,7 @@ def c19(ctx):
                       "than the age and no handle exists; it is dropped at the end of a successful poll unless a handle appeared meanwhile. TLC "
                       "checks DropRule / NeverDropDeclared / HandleNeverDangles over reads, handles, polls, clock steps and restarts from caches with "
                       "any stamps (incl. 0); random histories of the real store with the virtual clock are validated, incl. persisted access stamps",
-                      script_only_fams=("racetime",))
+                      script_only_fams=("racetime", "race"))
     return "model_checking", cov, ["the clock is the synctest bubble's; stamps are whole seconds as in the cache document"]
 
 
